@@ -6,6 +6,7 @@ import hashlib
 import re
 
 from anchors import INT_ANCHORS, FLOAT_ANCHORS, INT_RANK, FLOAT_RANK
+import stonegen
 from stonegen import TS_FORMATS, concrete_str
 
 TS_VALUES = {
@@ -74,13 +75,21 @@ class Binder:
         ns = self.schema[name]['ns']
         if ns not in self._mods:
             self._mods[ns] = self.gen.module(ns)
-        return getattr(self._mods[ns], name)
+        return getattr(self._mods[ns], stonegen.written(name))
 
     def validator(self, name):
         ns = self.schema[name]['ns']
         if ns not in self._mods:
             self._mods[ns] = self.gen.module(ns)
-        return getattr(self._mods[ns], name + '_validator')
+        return getattr(self._mods[ns], stonegen.written(name) + '_validator')
+
+    def model_name(self, o, kind):
+        """model name of the class of o (classes of different namespaces may carry the same written name)"""
+        cname = type(o).__name__
+        for n, d in self.schema.items():
+            if d['k'] == kind and stonegen.written(n) == cname and type(o) is self.cls(n):
+                return n
+        return None
 
     # ------------------------------------------------------------ abstract -> python
     def to_py(self, t, v):
@@ -189,8 +198,8 @@ class Binder:
             if d['k'] == 'alias':
                 return self.from_py(d['t'], o)
             if d['k'] == 'struct':
-                cname = type(o).__name__
-                if cname not in sc or sc[cname]['k'] != 'struct' or type(o) is not self.cls(cname):
+                cname = self.model_name(o, 'struct')
+                if cname is None:
                     raise Unprojectable('struct %r' % (o,))
                 f = {}
                 for fd in fields_inherited(sc, cname):
@@ -202,8 +211,8 @@ class Binder:
                         f[fd['n']] = pv
                 return {'k': 'struct', 'c': cname, 'f': f}
             if d['k'] == 'union':
-                cname = type(o).__name__
-                if cname not in sc or sc[cname]['k'] != 'union' or type(o) is not self.cls(cname):
+                cname = self.model_name(o, 'union')
+                if cname is None:
                     raise Unprojectable('union %r' % (o,))
                 tag = o._tag
                 return {'k': 'union', 'c': cname, 'tag': tag,
